@@ -75,7 +75,10 @@ func main() {
 	snpOnly, _ := fx.Build(fx.ImageSpec{Size: size, Fill: fx.PatternFill, ResetAddr: 0xff0000ff, Sev: fx.DefaultSev(), NoTdx: true, SevMetaAt: 0x800})
 	tdxOnly, _ := fx.Build(fx.ImageSpec{Size: size, Fill: fx.PatternFill, ResetAddr: 0xff0000ff, Sev: []fx.SevSection{{0x1000, 0x1000, 1}}, Tdx: fx.SmallTdx(size), SevMetaAt: 0x800, TdxMetaAt: 0x400})
 	neither := make([]byte, size)
-	images := [][]byte{both, snpOnly, tdxOnly, neither}
+	// a firmware of realistic size whose page count (133) is not a multiple of any stripe width a
+	// measurement loop might use; the reference walks it page by page
+	large := fx.SmallImage(0x85000)
+	images := [][]byte{both, snpOnly, tdxOnly, neither, large}
 	base := req{snp: true, tdxOn: true, product: sgpb.SevProduct_SEV_PRODUCT_MILAN, clspec: 77, ts: fx.T0}
 	devs := []dev{
 		{"snp-only", func(q *req) { q.tdxOn = false }},
@@ -110,6 +113,7 @@ func main() {
 		{"img=snp-only-valid", func(q *req) { q.img = 1 }},
 		{"img=tdx-only-valid", func(q *req) { q.img = 2 }},
 		{"img=neither", func(q *req) { q.img = 3 }},
+		{"img=large-133-pages", func(q *req) { q.img = 4 }},
 	}
 	var cases []struct {
 		q    req
